@@ -44,6 +44,14 @@ def seeds():
                 caught.append("%s: %s" % (key[6:], "VIOLATION (%d lines)" % v["n_violation_lines"] if v["n_violation_lines"] else ("exit %s, no VIOLATION line" % v["exit"])))
                 fr = v.get("first_replay") or {}
                 rep = str(fr.get("what") or fr.get("theorem_or_correspondence") or "")[:140].replace("|", "/").replace("\n", " ")
+        for old in m.get("earlier_check_runs", []):
+            for key, v in old.items():
+                if not v.get("n_violation_lines"):
+                    caught.append("(an earlier version of the check MISSED it: exit %s; strengthened since)" % v.get("exit"))
+                    break
+            else:
+                continue
+            break
         wb = (m.get("what_breaks", "") or "")[:230].replace("|", "/").replace("\n", " ")
         nm = (m.get("needs_to_manifest", "") or "")[:160].replace("|", "/").replace("\n", " ")
         rows.append("| %s | %s (%s) | %s | %s |" % (os.path.basename(d), wb, nm, "; ".join(caught), rep))
